@@ -3,6 +3,7 @@
 //! schedule per seed) and under ThreadSanitizer.
 //!
 //! usage: evx-c15 <rounds> <threads> <evals-per-thread> <seed>
+//!        evx-c15 cold <threads> <seed>      (the process's first use of the library is concurrent; per-thread clones)
 //! prints one JSON summary line; exit 0 = all results equal, 1 = mismatch (details on stdout as MISMATCH lines)
 
 use evalexpr::{
@@ -231,8 +232,118 @@ fn eval_on(t: &Node, c: &Shared) -> String {
     }
 }
 
+/// A call counter owned by a closure by value; a clone starts from the current count.
+struct OwnedCounter(std::sync::atomic::AtomicI64);
+impl OwnedCounter {
+    fn next(&self) -> i64 {
+        self.0.fetch_add(1, Ordering::SeqCst) + 1
+    }
+}
+impl Clone for OwnedCounter {
+    fn clone(&self) -> Self {
+        OwnedCounter(std::sync::atomic::AtomicI64::new(self.0.load(Ordering::SeqCst)))
+    }
+}
+
+/// Cold start: the very first thing this process does with the library happens on all threads at once (behind a barrier):
+/// builtin lookups, unknown functions, parsing, formatting — whatever the library initialises lazily is initialised under
+/// contention. Then every thread works on its own clone of one template context whose function owns a counter by value:
+/// a clone sent to another thread is independent of the template and of the other clones. The sequential expectation is
+/// computed afterwards.
+fn cold(threads: usize, seed: u64) -> ! {
+    let srcs: Vec<&'static str> = vec![
+        "min(3, 2) + max(1, 5)",
+        "math::sqrt(16) + floor(2.5)",
+        "len(\"hello\") + str::to_uppercase(\"a\") == 6",
+        "nosuch(1)",
+        "typeof(1.5), str::from(7), contains((1, 2, 3), 2)",
+        "bitand(6, 3) + shl(1, 4) + round(0.5)",
+        "if(true, \"x\", 2) + str::trim(\"  y \")",
+        "a + twice(c) * 2 < 100 && s != \"\"",
+        "(2 * 10) % 7 - 2 * a",
+    ];
+    let calls = if cfg!(miri) { 6 } else { 300 };
+    let counter = OwnedCounter(std::sync::atomic::AtomicI64::new(0));
+    let mut template = make_ctx(0);
+    template.set_function("next".into(), Function::new(move |_| Ok(Value::Int(counter.next())))).unwrap();
+    let shared = Arc::new(make_ctx(1));
+    let barrier = Arc::new(Barrier::new(threads));
+    let mut handles = Vec::new();
+    for t in 0..threads {
+        let own = template.clone();
+        let shared = shared.clone();
+        let barrier = barrier.clone();
+        let srcs = srcs.clone();
+        handles.push(std::thread::spawn(move || {
+            let mut out: Vec<String> = Vec::new();
+            let order: Vec<usize> = (0..srcs.len()).map(|i| (i + t + seed as usize) % srcs.len()).collect();
+            barrier.wait();
+            for i in order {
+                let got = match build_operator_tree::<DefaultNumericTypes>(srcs[i]) {
+                    Ok(tree) => format!("{:?} / {}", tree.eval_with_context(&*shared), tree),
+                    Err(e) => format!("build error {:?} / {}", e, e),
+                };
+                out.push(format!("{}\u{1}{}", i, got));
+            }
+            let tree = build_operator_tree::<DefaultNumericTypes>("next() * 2").unwrap();
+            let mine: Vec<String> = (0..calls).map(|_| format!("{:?}", tree.eval_with_context(&own))).collect();
+            (out, mine)
+        }));
+    }
+    let results: Vec<_> = handles.into_iter().map(|h| h.join()).collect();
+    // the sequential expectation, after the fact
+    let expected: Vec<String> = srcs
+        .iter()
+        .map(|s| match build_operator_tree::<DefaultNumericTypes>(s) {
+            Ok(tree) => format!("{:?} / {}", tree.eval_with_context(&*shared), tree),
+            Err(e) => format!("build error {:?} / {}", e, e),
+        })
+        .collect();
+    let expected_mine: Vec<String> = (1..=calls as i64).map(|k| format!("{:?}", Ok::<Value, EvalexprError>(Value::Int(k * 2)))).collect();
+    let mut mm = 0usize;
+    let mut evals = 0usize;
+    for (t, r) in results.into_iter().enumerate() {
+        match r {
+            Err(_) => {
+                mm += 1;
+                println!("MISMATCH cold start: thread {} panicked during its first evaluations", t);
+            },
+            Ok((out, mine)) => {
+                evals += out.len() + mine.len();
+                for line in out {
+                    let (i, got) = line.split_once('\u{1}').unwrap();
+                    let i: usize = i.parse().unwrap();
+                    if got != expected[i] {
+                        mm += 1;
+                        if mm <= 4 {
+                            println!("MISMATCH cold start: thread {} `{}` gave {} sequential {}", t, srcs[i], got, expected[i]);
+                        }
+                    }
+                }
+                if mine != expected_mine {
+                    mm += 1;
+                    let k = mine.iter().zip(&expected_mine).position(|(a, b)| a != b).unwrap_or(0);
+                    if mm <= 4 {
+                        println!("MISMATCH cloned context: thread {} call #{} of `next() * 2` on its own clone gave {} sequential {}", t, k + 1, mine.get(k).cloned().unwrap_or_default(), expected_mine.get(k).cloned().unwrap_or_default());
+                    }
+                }
+            },
+        }
+    }
+    println!(
+        "{{\"rounds\": 1, \"threads\": {}, \"evaluations\": {}, \"mismatches\": {}, \"distinct_interleavings\": 0, \"slow_context_events\": 0, \"interleaving_samples\": [], \"expected_sample\": {:?}}}",
+        threads, evals, mm, expected[0]
+    );
+    std::process::exit(if mm == 0 { 0 } else { 1 });
+}
+
 fn main() {
     let args: Vec<String> = std::env::args().collect();
+    if args.get(1).map(|s| s.as_str()) == Some("cold") {
+        let threads = args.get(2).and_then(|s| s.parse::<usize>().ok()).unwrap_or(16);
+        let seed = args.get(3).and_then(|s| s.parse::<u64>().ok()).unwrap_or(1);
+        cold(threads, seed);
+    }
     let num = |i: usize, d: u64| args.get(i).and_then(|s| s.parse::<u64>().ok()).unwrap_or(d);
     let rounds = num(1, 20);
     let threads = num(2, 8) as usize;
